@@ -8,10 +8,10 @@ namespace Mqtt
 
 theorem protos_refl (w w' : World) (hp : w'.protos = w.protos) :
     ∀ p, (∀ pr', w'.protos.get? p = some pr' → ∃ pr, w.protos.get? p = some pr ∧ pr'.addr = pr.addr ∧ pr'.state = pr.state ∧
-      pr'.lost = pr.lost ∧ pr'.pingTimer = pr.pingTimer ∧ pr'.pingAlarm = pr.pingAlarm ∧ pr'.pingKeepalive = pr.pingKeepalive ∧ pr'.connReq = pr.connReq) ∧
+      pr'.lost = pr.lost ∧ pr'.pingTimer = pr.pingTimer ∧ pr'.pingAlarm = pr.pingAlarm ∧ pr'.pingKeepalive = pr.pingKeepalive ∧ pr'.connReq = pr.connReq ∧ (Bytes.WF pr.buffer → Bytes.WF pr'.buffer)) ∧
     (∀ pr, w.protos.get? p = some pr → ∃ pr', w'.protos.get? p = some pr') := by
   intro p; rw [hp]
-  exact ⟨fun pr' h => ⟨pr', h, rfl, rfl, rfl, rfl, rfl, rfl, rfl⟩, fun pr h => ⟨pr, h⟩⟩
+  exact ⟨fun pr' h => ⟨pr', h, rfl, rfl, rfl, rfl, rfl, rfl, rfl, id⟩, fun pr h => ⟨pr, h⟩⟩
 
 /-- two worlds with the same core (everything but log, clock, ghost counters, inbound store, and the fields of
     request objects other than msgId/dfd/alarm) -/
@@ -58,7 +58,7 @@ theorem marked_none (w : World) : marked w none w.now = w := rfl
 /-- any world that looks like "entry `e` armed with a fresh retry timer of protocol `p`" satisfies the invariant -/
 theorem armedLike_inv {x : Option Nat} {w : World} (h : WInvX x w) {e : Ent} (he : e ∈ w.ents) (hq : e.box ≠ .queue)
     (p : Nat) (old : Option Nat) (n : Nat) (hal : (w.req e.rid).alarm = old)
-    (ppr : Proto) (hpp : w.protos.get? p = some ppr) (haddr : ppr.addr = e.addr) (w' : World)
+    (ppr : Proto) (hpp : w.protos.get? p = some ppr) (haddr : ppr.addr = e.addr) (hlive : ppr.lost = false) (w' : World)
     (hents : w'.ents = w.ents)
     (hreq : ∀ r, r ≠ e.rid → (w'.req r).msgId = (w.req r).msgId ∧ (w'.req r).dfd = (w.req r).dfd ∧ (w'.req r).alarm = (w.req r).alarm)
     (hreqe : (w'.req e.rid).msgId = (w.req e.rid).msgId ∧ (w'.req e.rid).dfd = (w.req e.rid).dfd ∧ (w'.req e.rid).alarm = some w.nextTimer)
@@ -68,7 +68,7 @@ theorem armedLike_inv {x : Option Nat} {w : World} (h : WInvX x w) {e : Ent} (he
     (hid : w'.nextId = w.nextId) (h1 : w'.nextReq = w.nextReq) (h2 : w'.nextTimer = w.nextTimer + 1)
     (h3 : w'.nextDfd = w.nextDfd) (h4 : w'.nextCR = w.nextCR) (h5 : w'.nextProto = w.nextProto) : WInvX x w' := by
   let r' : Req := { (w.req e.rid) with alarm := some w.nextTimer }
-  have hA := armed_inv h he hq r' p 0 old 0 [] rfl rfl rfl hal ppr hpp haddr
+  have hA := armed_inv h he hq r' p 0 old 0 [] rfl rfl rfl hal ppr hpp haddr hlive
   refine hA.sameCore ?_
   have hA1 : ∀ r, (armed w e r' p 0 old 0 []).req r = if e.rid = r then r' else w.req r := fun r => req_set w e.rid _ r _ rfl
   apply sameCore_of
@@ -115,7 +115,7 @@ theorem markedFacts (w : World) (old : Option Nat) (n : Nat) : MarkedFacts w old
 
 theorem retryPublishW_inv {x : Option Nat} {w : World} (h : WInvX x w) {e : Ent} (he : e ∈ w.ents) (hq : e.box ≠ .queue)
     (p : Nat) (dup : Bool) (old : Option Nat) (n : Nat) (hal : (w.req e.rid).alarm = old)
-    (ppr : Proto) (hpp : w.protos.get? p = some ppr) (haddr : ppr.addr = e.addr) :
+    (ppr : Proto) (hpp : w.protos.get? p = some ppr) (haddr : ppr.addr = e.addr) (hlive : ppr.lost = false) :
     WInvX x (retryPublishW p e.rid dup (marked w old n)) := by
   have hm := h.keyId e he hq
   obtain ⟨w0, hw0⟩ : ∃ w0, w0 = marked w old n := ⟨_, rfl⟩
@@ -123,7 +123,7 @@ theorem retryPublishW_inv {x : Option Nat} {w : World} (h : WInvX x w) {e : Ent}
   rw [← hw0]
   have hm0 : (w0.req e.rid).msgId ≠ 0 := by rw [f.req, hm.1]; exact hm.2
   have hm0w : (w.req e.rid).msgId ≠ 0 := by rw [hm.1]; exact hm.2
-  apply armedLike_inv h he hq p old n hal ppr hpp haddr
+  apply armedLike_inv h he hq p old n hal ppr hpp haddr hlive
   · simp [retryPublishW, hm0, f.ents]
   · intro r hr
     have : ¬ e.rid = r := fun hc => hr hc.symm
@@ -139,12 +139,12 @@ theorem retryPublishW_inv {x : Option Nat} {w : World} (h : WInvX x w) {e : Ent}
 
 theorem retryReleaseW_inv {x : Option Nat} {w : World} (h : WInvX x w) {e : Ent} (he : e ∈ w.ents) (hq : e.box ≠ .queue)
     (p : Nat) (dup : Bool) (old : Option Nat) (n : Nat) (hal : (w.req e.rid).alarm = old)
-    (ppr : Proto) (hpp : w.protos.get? p = some ppr) (haddr : ppr.addr = e.addr) :
+    (ppr : Proto) (hpp : w.protos.get? p = some ppr) (haddr : ppr.addr = e.addr) (hlive : ppr.lost = false) :
     WInvX x (retryReleaseW p e.rid dup (marked w old n)) := by
   obtain ⟨w0, hw0⟩ : ∃ w0, w0 = marked w old n := ⟨_, rfl⟩
   have f := hw0 ▸ markedFacts w old n
   rw [← hw0]
-  apply armedLike_inv h he hq p old n hal ppr hpp haddr
+  apply armedLike_inv h he hq p old n hal ppr hpp haddr hlive
   · simp only [retryReleaseW]; split <;> simp [f.ents]
   · intro r hr
     have : ¬ e.rid = r := fun hc => hr hc.symm
@@ -161,12 +161,12 @@ theorem retryReleaseW_inv {x : Option Nat} {w : World} (h : WInvX x w) {e : Ent}
 
 theorem retrySubUnsubW_inv {x : Option Nat} {w : World} (h : WInvX x w) {e : Ent} (he : e ∈ w.ents) (hq : e.box ≠ .queue)
     (p : Nat) (dup isSub : Bool) (old : Option Nat) (n : Nat) (hal : (w.req e.rid).alarm = old)
-    (ppr : Proto) (hpp : w.protos.get? p = some ppr) (haddr : ppr.addr = e.addr) :
+    (ppr : Proto) (hpp : w.protos.get? p = some ppr) (haddr : ppr.addr = e.addr) (hlive : ppr.lost = false) :
     WInvX x (retrySubUnsubW p e.rid dup isSub (marked w old n)) := by
   obtain ⟨w0, hw0⟩ : ∃ w0, w0 = marked w old n := ⟨_, rfl⟩
   have f := hw0 ▸ markedFacts w old n
   rw [← hw0]
-  apply armedLike_inv h he hq p old n hal ppr hpp haddr
+  apply armedLike_inv h he hq p old n hal ppr hpp haddr hlive
   · simp only [retrySubUnsubW]; split <;> simp [f.ents]
   · intro r hr
     have : ¬ e.rid = r := fun hc => hr hc.symm
@@ -188,7 +188,7 @@ theorem getD_of_get? {w : World} {p : Nat} {pr : Proto} (h : w.protos.get? p = s
 
 /-- one iteration of the refill loop -/
 theorem launch_inv {x : Option Nat} {w : World} (h : WInvX x w) (p : Nat) (dup : Bool) (ppr : Proto)
-    (hpp : w.protos.get? p = some ppr) {e : Ent} {rest : List Ent} (hitems : Ents.items w.ents ppr.addr .queue = e :: rest) :
+    (hpp : w.protos.get? p = some ppr) (hlive : ppr.lost = false) {e : Ent} {rest : List Ent} (hitems : Ents.items w.ents ppr.addr .queue = e :: rest) :
     WInvX x (retryPublishW p e.rid dup
       (if (w.req e.rid).msgId ≠ 0 then
         (w.setEnts fun es => Ents.dropFirst es ppr.addr .queue).setEnts fun es => Ents.insert es ppr.addr .pub (w.req e.rid).msgId e.rid
@@ -256,7 +256,7 @@ theorem launch_inv {x : Option Nat} {w : World} (h : WInvX x w) (p : Nat) (dup :
       (by
         intro cr c hc hcd
         exact (h.connReq cr c d hc hcd hdf.2).2.2 e he hd)
-      ppr hpp rfl
+      ppr hpp rfl hlive
     refine hA.sameCore ?_
     have hA1 : ∀ r, (addWindow w1 ppr.addr .pub (w.req e.rid).msgId e.rid r' p 0 w.nextReq w.nextDfd []).req r
         = if e.rid = r then r' else w.req r := fun r => req_set w1 e.rid _ r _ rfl
@@ -284,11 +284,12 @@ theorem retryPublishW_protos (p rid : Nat) (dup : Bool) (w : World) : (retryPubl
   simp only [retryPublishW]; split <;> simp
 
 theorem refillW_inv {x : Option Nat} (p : Nat) (dup : Bool) (ppr : Proto) (fuel : Nat) :
-    ∀ {w : World}, WInvX x w → w.protos.get? p = some ppr → WInvX x (refillW p dup fuel w) ∧ (refillW p dup fuel w).protos = w.protos := by
+    ∀ {w : World}, WInvX x w → w.protos.get? p = some ppr → ppr.lost = false →
+      WInvX x (refillW p dup fuel w) ∧ (refillW p dup fuel w).protos = w.protos := by
   induction fuel with
-  | zero => intro w h _; exact ⟨h, rfl⟩
+  | zero => intro w h _ _; exact ⟨h, rfl⟩
   | succ f ih =>
-    intro w h hpp
+    intro w h hpp hlive
     have hpa : w.paddr p = ppr.addr := by simp [World.paddr, getD_of_get? hpp]
     simp only [refillW, hpa]
     cases hit : Ents.items w.ents ppr.addr .queue with
@@ -296,18 +297,18 @@ theorem refillW_inv {x : Option Nat} (p : Nat) (dup : Bool) (ppr : Proto) (fuel 
     | cons e rest =>
       simp only
       split
-      · have hl := launch_inv h p dup ppr hpp hit
+      · have hl := launch_inv h p dup ppr hpp hlive hit
         have hpr : ∀ (w2 : World), w2.protos = w.protos → (retryPublishW p e.rid dup w2).protos = w.protos := by
           intro w2 h2; rw [retryPublishW_protos, h2]
         by_cases hm0 : (w.req e.rid).msgId = 0
         · simp only [hm0, ne_eq, not_true_eq_false, ↓reduceIte] at hl ⊢
           have hp2 := hpr (w.setEnts fun es => Ents.dropFirst es ppr.addr .queue) rfl
-          have := ih hl (by rw [hp2]; exact hpp)
+          have := ih hl (by rw [hp2]; exact hpp) hlive
           exact ⟨this.1, by rw [this.2, hp2]⟩
         · simp only [ne_eq, hm0, not_false_eq_true, ↓reduceIte] at hl ⊢
           have hp2 := hpr ((w.setEnts fun es => Ents.dropFirst es ppr.addr .queue).setEnts fun es =>
             Ents.insert es ppr.addr .pub (w.req e.rid).msgId e.rid) rfl
-          have := ih hl (by rw [hp2]; exact hpp)
+          have := ih hl (by rw [hp2]; exact hpp) hlive
           exact ⟨this.1, by rw [this.2, hp2]⟩
       · exact ⟨h, rfl⟩
 
@@ -386,7 +387,7 @@ theorem handlePUBACK_inv {w : World} (h : WInv w) (p : Nat) (ppr : Proto) (hpp :
         = (fireD (dropArmed w ⟨ppr.addr, .pub, m, rid⟩ t) d (.fired d (.ok (.int (w.req rid).msgId))), none) := rfl
     rw [seq_ok s3]
     have hS := settle_inv h he hq ht hd (.fired d (.ok (.int (w.req rid).msgId)))
-    exact ⟨rfl, (refillW_inv (x := none) p false ppr _ hS hpp).1⟩
+    exact ⟨rfl, (refillW_inv (x := none) p false ppr _ hS hpp hlive).1⟩
 
 /-- what is known about an entry found in a window of a connected, live protocol -/
 theorem window_entry_facts {w : World} (h : WInv w) (p : Nat) (ppr : Proto) (hpp : w.protos.get? p = some ppr)
@@ -433,7 +434,7 @@ theorem handlePUBCOMP_inv {w : World} (h : WInv w) (p : Nat) (ppr : Proto) (hpp 
       rw [hkey]; rfl
     rw [seq_ok s3]
     have hS := settle_inv h he hq ht hd (.fired d (.ok (.int (w.req rid).msgId)))
-    exact ⟨rfl, (refillW_inv (x := none) p false ppr _ hS hpp).1⟩
+    exact ⟨rfl, (refillW_inv (x := none) p false ppr _ hS hpp hlive).1⟩
 
 /-- MQTTProtocol.handleSUBACK / handleUNSUBACK -/
 theorem handleSubUnsubAck_inv {w : World} (h : WInv w) (p : Nat) (ppr : Proto) (hpp : w.protos.get? p = some ppr)
@@ -522,7 +523,7 @@ theorem handlePUBREC_inv {w : World} (h : WInv w) (p : Nat) (ppr : Proto) (hpp :
       (by
         intro cr c hc hcd
         exact (h.connReq cr c d hc hcd hdf.2).2.2 _ he hd)
-      ppr hpp rfl
+      ppr hpp rfl hlive
     -- the release window has no entry under this identifier yet
     have hlook : Ents.lookup wd.ents ppr.addr .rel m = none := by
       cases hl2 : Ents.lookup wd.ents ppr.addr .rel m with
